@@ -123,7 +123,7 @@ def gen_variadic(full, rng, nrand):
     for n in range(0, 4):
         combos = list(itertools.product(rts, repeat=n)) if n <= 2 else [tuple(rng.choice(rts) for _ in range(n)) for _ in range(12)]
         for res in combos:
-            hdr = 'func 0 %d %s 0 ; %s' % (n, ' '.join(res), DECL)
+            hdr = 'proto p0 0 1 i64 1 i64 ; func 0 %d %s 0 ; %s' % (n, ' '.join(res), DECL)
             good = [fill_of[t] for t in res]
             cases.append(('ret', case_insn('ret', good, hdr)))
             cases.append(('ret', case_insn('ret', good + ['r:ri'], hdr)))
@@ -137,7 +137,7 @@ def gen_variadic(full, rng, nrand):
     for t in TYPES:  # result types of the function itself
         cases.append(('ret', 'func 0 1 %s 0 ; %s ; insn ret r:ri ; finish' % (t, DECL)))
     # ---- switch
-    hdr = 'func 0 0 0 ; ' + DECL
+    hdr = 'proto p0 0 1 i64 1 i64 ; func 0 0 0 ; ' + DECL
     for n in (0, 1, 2, 3, 6):
         ops = (['r:ri'] + ['L'] * (n - 1)) if n else []
         cases.append(('switch', case_insn('switch', ops, hdr)))
@@ -480,7 +480,9 @@ def run(chk):
         raise vlib.BuildError('model driver failed: rc=%d %s' % (rc2, e2[-500:]))
     variants = [('plain', o_impl)]
     if not quick:
-        asan = vlib.build_harness('c15_api', ['c15_api.c'], variant='asan', units=('mir',))
+        # mir-hash.h reads strings with deliberately unaligned 32/64-bit loads on x86-64
+        # (MIR_HASH_UNALIGNED_ACCESS): not an error here, so UBSan's alignment check is off
+        asan = vlib.build_harness('c15_api', ['c15_api.c'], variant='asan', units=('mir',), defs=['-fno-sanitize=alignment'])
         o_asan = run_impl(asan, lines, env={'ASAN_OPTIONS': 'detect_leaks=0:abort_on_error=0', 'UBSAN_OPTIONS': 'print_stacktrace=0'})
         variants.append(('asan', o_asan))
         chk.cov['asan_cases'] = len(lines)
@@ -545,7 +547,9 @@ def run(chk):
 def replay(chk, path):
     j = json.load(open(path))
     tr_c15_insn_descs.generate()
-    impl = vlib.build_harness('c15_api', ['c15_api.c'], variant=j['replay'].get('variant', 'plain') if j['replay'].get('variant') in ('plain', 'asan') else 'plain', units=('mir',))
+    variant = j['replay'].get('variant', 'plain') if j['replay'].get('variant') in ('plain', 'asan') else 'plain'
+    impl = vlib.build_harness('c15_api', ['c15_api.c'], variant=variant, units=('mir',),
+                              defs=['-fno-sanitize=alignment'] if variant == 'asan' else ())
     model = vlib.ocaml_build('c15', 'Extract_C15', ['c15x'], 'driver_c15.ml')
     if 'case' not in j['replay']:
         print('no concrete case in this replay (proof / tie broken):', j.get('what'))
